@@ -9,6 +9,8 @@ Case grammar (one line = one table + a list of queries, every query on a copy of
   t2 <x_dim> <y_dim> <f_dim> <list xs> <list ys> <table f> <nq> query2*     Interpolation_2D(xs, ys, f, ...)
   h2 ... (as t2)                                              the same, all queries on ONE live object
   t3 <x_dim> <y_dim> <f_dim> <table rows (x y f)> <nq> (I x y)*              Interpolation_2D(data_table, ...), I queries only
+  d1 <nq> query*                                              the default-constructed object Interpolation()  (table (-1,0,1) -> (0,0,0))
+  d2 <nq> query2*                                             the default-constructed object Interpolation_2D() (3 x 3 zeros on (-1,0,1)^2)
   s1 <nseg> seg*        a SESSION on up to four slots (raw storage / heap objects that are re-used): every segment puts a table into a slot,
                         copies another slot's object or resumes a slot, then sends its requests to the LIVE object of that slot:
        seg = A <mode> <slot> <x_dim> <f_dim> <list xs> <list ys> <nq> query*      mode a: slot = Interpolation(...)   (assignment to the live object)
@@ -72,9 +74,20 @@ LEVEL_TEXT = ("Theorems (Coq, over the reals, unbounded in the table length; all
               "grid constructor's object for the table of every valid grid, and EVERY table it accepts yields a valid grid with N_x N_y rows that returns each row's f at that "
               "row's (x, y), unit factors included (both in C01_constructors2_sound). The same Gallina terms are extracted and run against the C++ classes on every run "
               "(bit-identical on the generated cases); all clauses are also evaluated on the implementation's output (S4) with a-priori rounding slack. "
-              "Not theorems: behaviour in floating point (rounding) -- correspondence run and S4 only, except C01_derivative_order_0; joint continuity of the 2D interpolant as a "
-              "function of (x, y) is proved in the form 'closed-cell bilinear form + agreement on shared edges', not as a topological continuity statement; the 2D extrapolation "
-              "zone and which malformed data tables are rejected (the accepted ones are covered by the soundness theorem) are covered by correspondence only; the history "
+              "Seventh pass: for EVERY arithmetic (abstract NumOps, no law about comparisons or operations used, so for the doubles as they are, NaN and inf included), on "
+              "whatever object the 1D constructor returns, Locate exits or returns j with j+1 < N, Bisection ends within N iterations and reads inside the table "
+              "(C01_bisection_range, induction over the fuel), Interpolate and Derivative(.,k) read x_values[j], a[j]..d[j] in bounds, return a number, and Interpolate exits exactly "
+              "when Locate does (C01_queries_in_bounds_every_arithmetic): the model's OOB / Fuel outcomes are unreachable. 2D at every query point: for grids with >= 3 abscissae "
+              "per axis Interpolate(x,y) answers exactly on the product of the two open 1 % zones, with the bilinear form of the cell Locate selects (first / last cell outside the "
+              "table), and exits elsewhere (C01_interpolate2_total). The default constructors Interpolation() / Interpolation_2D() and operator() of both classes are in the model "
+              "(default1, default2, call1, call2; case types d1 / d2): the default objects answer 0 with all derivatives exactly on (-1.01, 1.01) resp. its square and exit "
+              "elsewhere (C01_default_objects); operator() is Interpolate (C01_call_operator_is_interpolate). T-tie: libphysica::Sign(double), the sign function of the slope "
+              "limiter, is regenerated from the source by tools/cxx2gallina.py on every run and proved equal to the model's sign1 (C01_generated_Sign_is_model, premise: the "
+              "literal 0.0 is the constant 0). coverage/C01.md lists function by function what is modelled. "
+              "Not theorems: behaviour in floating point (rounding) of the shape clauses -- correspondence run and S4 only (the in-bounds, exit, constructor-guard and "
+              "Derivative(.,0) theorems do hold for every arithmetic); joint continuity of the 2D interpolant as a "
+              "function of (x, y) is proved in the form 'closed-cell bilinear form + agreement on shared edges', not as a topological continuity statement; the extrapolation "
+              "zone of a 2D axis with only two abscissae and which malformed data tables are rejected (the accepted ones are covered by the soundness theorem) are covered by correspondence only; the history "
               "dependence of Locate is property C09 (the model's Locate is the search of a fresh object); here it is covered by correspondence and S4 on live objects: "
               "random walks and long runs of 9..1000 neighbouring requests (sweeps in both directions, repeated points, knot after knot) followed by probes in every "
               "direction (cases h1/h2, tag sweep); the prefactor is C08. std::sort / std::unique are modelled by their specification.")
@@ -83,8 +96,11 @@ LEVEL_NOTE = ("Coq 8.16.1 kernel; theorems over R use the standard library's rea
 TRUSTED = ["std::pow with exponents 2.0 and 3.0 is modelled by npowi (powerRZ on R, libm pow on doubles)",
            "every query is made on a copy of the freshly constructed object (the search state machine is property C09), except in the history modes h1 / h2 and the sessions s1 / s2 (live, re-used objects)",
            "in the session cases the harness re-uses storage (assignment, placement new, delete/new, a function-local object); that the allocator / compiler hand out the same address again is usual, not guaranteed",
-           "std::sort / std::unique in the data-table constructor are modelled by their specification (insertion sort with operator<, first element of each run kept)"]
-ASSUMPTIONS = ["the shape theorems assume N >= 3, strictly increasing abscissae, real arithmetic; N = 2 tables have the chord theorem only; the constructor guards are characterised completely (1D) resp. soundly (2D data table); rejected malformed 2D tables are covered by correspondence only"]
+           "std::sort / std::unique in the data-table constructor are modelled by their specification (insertion sort with operator<, first element of each run kept)",
+           "std::min / fabs in the slope limiter are modelled by their specification (nmin = (b<a)?b:a, nabs); the T-tie of Sign(double) assumes the source literal 0.0 is the constant 0 (Lit0; proved over R)",
+           "Hunt, the jLast / correlated_calls update of Locate, the prefactor setters, Integrate and the extremum functions are not in this model (properties C09, C08); see coverage/C01.md"]
+ASSUMPTIONS = ["the shape theorems assume N >= 3, strictly increasing abscissae, real arithmetic; N = 2 tables have the chord theorem only; the constructor guards are characterised completely (1D) resp. soundly (2D data table); rejected malformed 2D tables are covered by correspondence only",
+               "C01_interpolate2_total assumes at least three abscissae on each axis; C01_queries_in_bounds_every_arithmetic assumes nothing beyond the constructor having returned the object"]
 
 
 # ----------------------------------------------------------------------------------------------- generators
@@ -905,6 +921,49 @@ def session_cases_2d(rng, n):
     return cs
 
 
+def default_cases(rng, n):
+    """the default constructors Interpolation() / Interpolation_2D(): all request kinds on the domain and in the 1 % zone, and both sides
+    of the exit guard (+-1.01, their neighbours, far outside, inf, nan)"""
+    ax = list(DEFAULT_AXIS); cs = []
+    edge = [-1.01, 1.01, math.nextafter(-1.01, 0.0), math.nextafter(1.01, 0.0), math.nextafter(-1.01, -2.0), math.nextafter(1.01, 2.0),
+            -1.0099, 1.0099, -1.02, 1.5, -3.0, math.inf, -math.inf, math.nan, math.nextafter(-1.0, -2.0), math.nextafter(1.0, 2.0)]
+    for k in range(n):
+        w = k % 4
+        if w == 0:
+            qs = queries_for(rng, ax)
+            for _ in range(6):
+                x = rng.uniform(-1.0099, 1.0099); qs += [f"I {hx(x)}", f"D {rng.choice([0, 1, 2, 3, 4, 9])} {hx(x)}", f"L {hx(x)}"]
+            cs.append(Case(f"d1 {len(qs)} " + " ".join(qs), ("1d", "default")))
+        elif w == 1:
+            qs = [f"C {i} {j} {rng.choice([2, 4])}" for i in (0, 1) for j in (0, 1)]
+            for _ in range(8):
+                qs.append(f"I {hx(rng.uniform(-1.0099, 1.0099))} {hx(rng.uniform(-1.0099, 1.0099))}")
+            qs += [f"I {hx(a)} {hx(b)}" for a in ax for b in ax]
+            cs.append(Case(f"d2 {len(qs)} " + " ".join(qs), ("2d", "default")))
+        elif w == 2:
+            x = rng.choice(edge); q = rng.choice(["I", "L", "D 1", "D 0", "D 4", "K"])
+            pre = [f"I {hx(rng.uniform(-1.0, 1.0))}"] if rng.random() < 0.5 else []
+            cs.append(Case(f"d1 {len(pre) + 1} " + " ".join(pre + [f"{q} {hx(x)}"]), ("1d", "default", "edge-tolerance")))
+        else:
+            x = rng.choice(edge); y = rng.uniform(-1.0099, 1.0099)
+            if rng.random() < 0.5: x, y = y, x
+            cs.append(Case(f"d2 1 I {hx(x)} {hx(y)}", ("2d", "default", "edge-tolerance")))
+    return cs
+
+
+def regenerate():
+    """T-tie: coq/Gen_C01_Formulas.v (libphysica::Sign(double), the sign function of the slope limiter) is regenerated from
+    src/Special_Functions.cpp on every run; coq/C01_GenTie.v proves it equal to [sign1], the term the model's dy_i is written with."""
+    import os, vbuild, cxx2gallina
+    src = os.path.join(vbuild.REPO, "src", "Special_Functions.cpp")
+    try:
+        txt = cxx2gallina.translate_all(src, [cxx2gallina.Fn("Sign", ["double"], "g_Sign")], [os.path.join(vbuild.REPO, "include")])
+    except cxx2gallina.Unsupported as e:
+        raise RuntimeError(f"tools/cxx2gallina.py cannot translate libphysica::Sign(double): {e}")
+    ch = cxx2gallina.write_if_changed(os.path.join(vbuild.VERIF, "coq", "Gen_C01_Formulas.v"), txt)
+    return "Gen_C01_Formulas.v regenerated from the current source" if ch else ""
+
+
 def generate(rng, tier):
     big = tier != "quick"; cs = []
     ntab = 6000 if big else 900
@@ -1029,6 +1088,8 @@ def generate(rng, tier):
     # re-allocation, function-local objects), several objects alive at once, copies; the same arguments meet every table
     cs += session_cases_1d(rng, 3000 if big else 260)
     cs += session_cases_2d(rng, 800 if big else 70)
+    # the default constructors (last, so that the random streams of the classes above are unchanged)
+    cs += default_cases(rng, 400 if big else 48)
     return cs
 
 
@@ -1048,6 +1109,7 @@ class Rd:
 
 
 OPS2 = ("t2", "h2", "t3")
+DEFAULT_AXIS = (-1.0, 0.0, 1.0)
 
 
 def grid_of_rows(rows):
@@ -1101,7 +1163,12 @@ def parse_case(line):
     r = Rd(line); op = r.word(); d = {"op": op}
     if op in ("s1", "s2"):
         d["segs"] = parse_session(r, op); return d
-    if op in ("t1", "h1"):
+    if op == "d1":      # the specification of Interpolation(): written here independently of the model
+        d.update({"op": "t1", "default": True, "xd": -1.0, "fd": -1.0, "xs0": list(DEFAULT_AXIS), "ys0": [0.0, 0.0, 0.0]})
+    elif op == "d2":
+        d.update({"op": "t2", "default": True, "xd": -1.0, "yd": -1.0, "fd": -1.0, "xs0": list(DEFAULT_AXIS), "ys0": list(DEFAULT_AXIS),
+                  "f0": [[0.0] * 3 for _ in range(3)]})
+    elif op in ("t1", "h1"):
         d["xd"], d["fd"] = r.num(), r.num(); d["xs0"], d["ys0"] = r.list(), r.list()
     elif op == "tr":
         d["xd"], d["fd"] = r.num(), r.num(); d["rows"] = r.table()
@@ -1112,7 +1179,7 @@ def parse_case(line):
         d["xs0"], d["ys0"], d["f0"], d["rows_ok"] = grid_of_rows(rows)
     else:
         d["xd"], d["yd"], d["fd"] = r.num(), r.num(), r.num(); d["xs0"], d["ys0"] = r.list(), r.list(); d["f0"] = r.table()
-    d["qs"] = parse_queries(r, op in OPS2)
+    d["qs"] = parse_queries(r, d["op"] in OPS2)
     return d
 
 
@@ -1449,8 +1516,14 @@ def expected_exit(d):
     if not table_ok(d["xs0"], d["ys0"], d["xd"]): return True
     xs = scaled(d["xd"], d["xs0"])
     for q in d["qs"]:
-        x = q[1] if q[0] in ("I", "L", "K", "V") else (q[2] if q[0] == "D" else None)
-        if x is not None and locate_ref(xs, x) is None: return True
+        # every point at which the composite request calls the library (K: x and its two neighbours; F: x-d, x, x+d; V: x-2d .. x+2d)
+        if q[0] in ("I", "L"): pts = [q[1]]
+        elif q[0] == "D": pts = [q[2]]
+        elif q[0] == "K": pts = [math.nextafter(q[1], -math.inf), q[1], math.nextafter(q[1], math.inf)]
+        elif q[0] == "F": pts = [q[1] - q[2], q[1], q[1] + q[2]]
+        elif q[0] == "V": pts = [q[1] - 2.0 * q[2], q[1] - q[2], q[1], q[1] + q[2], q[1] + 2.0 * q[2]]
+        else: pts = []
+        if any(locate_ref(xs, x) is None for x in pts): return True
     return False
 
 
@@ -1493,7 +1566,13 @@ def predicates(c, io):
     if ee: return [(d["op"] + ":no-exit", "a malformed table or a query point outside the 1 % tolerance was accepted")]
     vals = [int(t) if is_int_tok(t) else (math.nan if t == "nan" else math.inf if t == "inf" else -math.inf if t == "-inf" else float.fromhex(t)) for t in io.split()]
     if d["op"] in ("s1", "s2"): return pred_session(c, d, vals)
-    return pred_2d(c, d, vals) if d["op"] in OPS2 else pred_1d(c, d, vals)
+    out = pred_2d(c, d, vals) if d["op"] in OPS2 else pred_1d(c, d, vals)
+    if d.get("default"):
+        # theorem C01_default_objects: a default-constructed object answers 0 (value and every derivative) wherever it answers; exact,
+        # because every coefficient of a table of zeros is a signed zero in IEEE arithmetic
+        bad = [k for k, v in enumerate(vals) if isinstance(v, float) and not v == 0.0]
+        if bad: out.append((("d2" if d["op"] in OPS2 else "d1") + ":zero", f"a default-constructed object returned {vals[bad[0]]!r} (output {bad[0]}), not 0"))
+    return out
 
 
 def nontrivial(c, io):
